@@ -14,7 +14,7 @@ import os, json, struct
 import vlib
 
 LEVEL = "proof"
-MODEL_FIELDS = ("rc", "binn", "back", "back0", "bcl", "bclp", "ncl", "p", "t", "t2", "b", "b2", "jt", "jb")
+MODEL_FIELDS = ("rc", "binn", "back", "back0", "bcl", "bclp", "ncl", "p", "t", "t2", "b", "b2", "jt", "jb", "ser", "again", "c")
 # flag sets of the `pr` query: PRETTY = 1, CODEPOINTS = 2, PRETTY_INDENT2 = 5, PRETTY_INDENT4 = 9
 PR_FLAGS = (0, 1, 2, 3, 5, 7, 9, 11)
 PR_INDENT1 = (0, 1, 2, 3)
@@ -29,7 +29,7 @@ JUDGE_INDENT = JUDGE_OPEN or os.environ.get("VERIF_C14_JUDGE_INDENT") == "1"
 # it; measured and counted, judged only with VERIF_C14_JUDGE_CLONEP=1 (or VERIF_C14_JUDGE_OPEN=1)
 JUDGE_CLONEP = JUDGE_OPEN or os.environ.get("VERIF_C14_JUDGE_CLONEP") == "1"
 IND_KINDS = ("S.node", "S.buf", "S.set", "S.setr", "S.json")
-KNOWN_FIX = {"jbl_as_json-ignores-indent": "jbinn-print-indent.diff", "jbl_clone_into_pool-shares-pbuf": "jbinn-clone-into-pool-alias.diff",
+KNOWN_FIX = {"jbl_ptr_serialize-unescaped": "jbinn-ptr-serialize-escape.diff", "jbl_as_json-ignores-indent": "jbinn-print-indent.diff", "jbl_clone_into_pool-shares-pbuf": "jbinn-clone-into-pool-alias.diff",
              "jbn_get-borrowed-keys": "jbinn-get-borrowed-keys.diff"}
 
 
@@ -625,8 +625,8 @@ HEADER_API = {
     "jbl_get_i32": "X:narrowing scalar accessor", "jbl_copy_strn": "X:scalar accessor (C17)", "jbl_set_user_data": "X:no document content",
     "jbl_get_user_data": "X:no document content", "jbl_fstream_json_printer": "X:output sink (C13)", "jbl_count_json_printer": "X:output sink (C13)",
     "jbn_as_xml": "X:other output format", "jbn_remove_item": "X:mutator (C15)", "jbn_detach": "X:mutator (C15)", "jbn_detach2": "X:mutator (C15)",
-    "jbn_data": "X:mutator", "jbl_ptr_alloc_pool": "X:same parser as jbl_ptr_alloc, other allocator", "jbl_ptr_cmp": "X:pointer utility",
-    "jbl_ptr_serialize": "X:pointer utility", "jbn_patch_auto": "X:patch (C15/C16)", "jbn_patch": "X:patch (C15)", "jbl_patch": "X:patch (C15)",
+    "jbn_data": "X:mutator", "jbl_ptr_alloc_pool": "X:same parser as jbl_ptr_alloc, other allocator", "jbl_ptr_cmp": "C:pcmp (pcmp lines, and `again` of ptr lines)",
+    "jbl_ptr_serialize": "C:ser (ptr lines)", "jbn_patch_auto": "X:patch (C15/C16)", "jbn_patch": "X:patch (C15)", "jbl_patch": "X:patch (C15)",
     "jbl_patch_from_json": "X:patch (C15)", "jbl_merge_patch": "X:merge patch (C16)", "jbl_merge_patch_jbl": "X:merge patch (C16)",
     "jbn_merge_patch": "X:merge patch (C16)", "jbn_merge_patch_path": "X:merge patch (C16)", "jbn_merge_patch_from_json": "X:merge patch (C16)",
     "jbn_merge_patch_create": "X:merge patch (C16)", "jbl_init": "X:module init", "iwjson_ftoa": "X:number printing (C13)",
@@ -1047,6 +1047,20 @@ def oracle(query, out):
         elif q[0] == "ptr":
             path = b"" if q[1] == "-" else bytes.fromhex(q[1])
             bad += ptr_oracle(path, f)
+            if f.get("again") == "other" or f.get("again") == "PTR":
+                # jbl_ptr_serialize writes '~' and '/' inside a segment back unescaped: the text denotes another pointer or none.
+                # A pointer utility outside the statement of C14: measured, never judged (notes/jbinn.md, fixes/jbinn-ptr-serialize-escape.diff)
+                KNOWN_HITS["jbl_ptr_serialize-unescaped"] = KNOWN_HITS.get("jbl_ptr_serialize-unescaped", 0) + 1
+        elif q[0] == "pcmp":
+            p1, p2 = (b"" if x == "-" else bytes.fromhex(x) for x in q[1:3])
+            t1, t2 = rfc_parse(p1), rfc_parse(p2)
+            ok = lambda p, t: t is not None and 0 not in p and not (len(p) > 1 and p.endswith(b"/"))
+            if ok(p1, t1) and ok(p2, t2):
+                if f.get("c") not in ("-1", "0", "1"):
+                    bad.append("jbl_ptr_cmp on two well formed pointers: no answer (%s)" % f.get("c"))
+                elif (f["c"] == "0") != (t1 == t2):
+                    bad.append("jbl_ptr_cmp says %s for pointers whose RFC 6901 reference tokens are %s" % (
+                        f["c"], "equal" if t1 == t2 else "different"))
         elif q[0] == "at":
             doc = parse_dump(q[1])
             path = b"" if q[2] == "-" else bytes.fromhex(q[2])
@@ -1146,9 +1160,9 @@ def build_queries(run, mult):
                     lines.append("at %s %s" % (d, vlib.hexs(p)))
                     run.dist("at-existing")
             for p in extra:
-                if well_escaped(p):
+                if 0 not in p:
                     lines.append("at %s %s" % (d, vlib.hexs(p)))
-                    run.dist("at-mutated")
+                    run.dist("at-mutated" if well_escaped(p) else "at-bad-escape")
             if rng.chance(1, 6):
                 for p in (b"/*", b"/*/0", b"/a/", b"/", b"//", b"a", b"/0/*"):
                     lines.append("at %s %s" % (d, vlib.hexs(p)))
@@ -1170,9 +1184,15 @@ def build_queries(run, mult):
         p = b"".join(b"/" + bytes(rng.choice(b"ab~/01*x") for _ in range(rng.below(4))) for _ in range(rng.range(1, 4)))
         if rng.chance(1, 4):
             p = p[1:]
-        if well_escaped(p):
-            lines.append("ptr " + vlib.hexs(p))
-            run.dist("ptr")
+        lines.append("ptr " + vlib.hexs(p))
+        run.dist("ptr" if well_escaped(p) else "ptr-bad-escape")
+    pool = [b"", b"/", b"/a", b"/b", b"/a/b", b"/a~1b", b"/a~0b", b"/ab", b"/a/", b"/~0", b"/~1", b"/~", b"/a~2", b"//", b"/a//b", b"/0", b"/00",
+            b"/a/b/c", b"/A", b"a"]
+    for _ in range(60 * mult):
+        a = rng.choice(pool)
+        b = a if rng.chance(1, 4) else rng.choice(pool)
+        lines.append("pcmp %s %s" % (vlib.hexs(a), vlib.hexs(b)))
+        run.dist("pcmp")
     return lines
 
 
